@@ -121,7 +121,9 @@ impl Instant {
     pub fn now() -> (r: Instant) { unimplemented!() }
     /// milliseconds since `self`; SUBST of `start.elapsed().as_millis()`
     #[verifier::external_body]
-    pub fn elapsed_ms(&self) -> (r: u128) ensures r < u128::MAX { unimplemented!() }   // range: fewer than 2^128-1 ms elapse
+    /// `t` stands for the time that had already elapsed since `self` when the caller started: the clock is monotone, so
+    /// every later reading is at least that
+    pub fn elapsed_ms(&self) -> (r: u128) ensures r < u128::MAX, r >= self.t@ { unimplemented!() }   // range: fewer than 2^128-1 ms elapse
 }
 
 pub struct SimpleEvaluator;
